@@ -514,7 +514,7 @@ def schedule_part_tables(rec, shard, nshards, thorough):
         holder_["last"] = (problems, seen_)
         return tr
     n_ = 0
-    for dec, trace in sched.enumerate_schedules(run_eof, 3 if thorough else 2, shard, nshards):
+    for dec, trace in sched.enumerate_schedules(run_eof, 4 if thorough else 3, shard, nshards):
         case = {"request_vs_eof": True, "schedule": {str(i): c for i, c in sorted(dec.items())}}
         for k_, detail in holder_["last"][0]:
             rec.violation(f"C09/request-vs-eof/{k_}", case, detail)
